@@ -4,7 +4,8 @@
    fix: commits; tied to both on every run by harness/c04), Model/H1Render.v (sender side,
    used to state the round-trip theorems). *)
 From ReqV Require Import Lib.Bytes Model.H1Resp Model.H1Render Model.H1RenderHead
-  Proofs.H1RespProofs Proofs.H1HeadProofs Proofs.H1MimeProofs Proofs.H1TransferProofs.
+  Proofs.H1RespProofs Proofs.H1HeadProofs Proofs.H1MimeProofs Proofs.H1TransferProofs
+  Model.H1Conn Proofs.H1SyncProofs.
 From ReqV Require Gen.H1Tables.
 From Coq Require Import Lia.
 
@@ -100,6 +101,31 @@ Theorem C04_chunk_constants_agree :
   Gen.H1Tables.fork_excess_per_chunk = 16%Z.
 Proof. exact chunk_constants_agree. Qed.
 Print Assumptions C04_chunk_constants_agree.
+
+(* ... and so are validHeaderValueByte's bitmap (all 256 bytes), bodyAllowedForStatus (every
+   integer status), fixLength's status tests, the literals "HEAD" / "chunked" / ParseUint(_,10,63),
+   the forbidden trailer keys, the Connection tokens, max1xxResponses and errorLimit *)
+Theorem C04_value_byte_table_agrees : forall b,
+  valid_value_byte b = existsb (N.eqb (bN b)) Gen.H1Tables.fork_value_byte_table.
+Proof. exact value_byte_table_agrees. Qed.
+Print Assumptions C04_value_byte_table_agrees.
+
+Theorem C04_bodiless_ranges_agree : forall code,
+  body_allowed_for_status code = negb (in_ranges code Gen.H1Tables.fork_bodiless_ranges).
+Proof. exact bodiless_ranges_agree. Qed.
+Print Assumptions C04_bodiless_ranges_agree.
+
+Theorem C04_transfer_literals_agree :
+  (Gen.H1Tables.fork_fixlength_class = 1%Z /\ Gen.H1Tables.fork_fixlength_codes = [204; 304]%Z) /\
+  Gen.H1Tables.fork_no_body_method = nbytes (bs "HEAD") /\
+  Gen.H1Tables.fork_te_accepted = nbytes (bs "chunked") /\
+  Gen.H1Tables.fork_cl_base = 10%Z /\ Gen.H1Tables.fork_cl_bits = 63%Z /\
+  Gen.H1Tables.fork_bad_trailer_keys = map nbytes [K_TE; K_TRAILER; K_CL] /\
+  Gen.H1Tables.fork_connection_tokens = map nbytes [bs "close"; bs "keep-alive"] /\
+  Gen.H1Tables.fork_max_1xx = Z.of_nat max_1xx_responses /\
+  Gen.H1Tables.fork_mime_error_limit = 80%Z.
+Proof. exact (conj fixlength_codes_agree transfer_literals_agree). Qed.
+Print Assumptions C04_transfer_literals_agree.
 
 (* ---------------------------------------------------------------------- *)
 (* status line                                                              *)
